@@ -17,9 +17,9 @@ theorem sortDeps_total (av : List Name) (els : List Dep)
     (hnd : (els.map (·.name)).Nodup) (hs : Sortable av els) : ∃ o, sortDeps av els = .ok o := by
   have hchk : checkSortable av els = .ok () :=
     (checkSortable_ok_iff av els).mpr (sortable_complete hs)
-  obtain ⟨o, ho⟩ := sortLoop_ok (qinv_sortInv hs) els (els.length * els.length) av els none []
+  obtain ⟨o, ho⟩ := sortLoop_ok (qinv_sortInv hs) els (Generated.C02.maxIterations els.length) av els none []
     els [] ⟨fun d hd => hd, hnd, fun a ha => ha, fun d hd hnd' => absurd hd hnd'⟩ (by simp)
-    (by simp) (by intro x hx; cases hx) (by simpa using tri_le_sq els.length)
+    (by simp) (by intro x hx; cases hx) (by simpa using tri_le_cap els.length)
   exact ⟨o, by simp [sortDeps, hchk, ho, bind, Except.bind]⟩
 
 /-! ### stages 3-5: stoichiometry split and the two dictionary reads -/
